@@ -41,10 +41,72 @@ def nontrivial(res):
     return False
 
 
+# -- "the same endpoint": the identity of the address objects the deduplication table is keyed with ------------------
+# (oracle only; every datagram transport's address class, built the way the transport builds it for a received
+# datagram.  Two datagrams are from the same endpoint iff address and port agree; pairs that differ in the IPv6
+# scope id only are left out here: that question is the known finding `scope-id-merged`.)
+
+ADDR6 = [("2001:db8::1", 5683, 0, 0), ("2001:db8::1", 5684, 0, 0), ("2001:db8::2", 5683, 0, 0),
+         ("::ffff:10.0.0.1", 5683, 0, 0), ("::ffff:10.0.0.1", 61616, 0, 0), ("::ffff:10.0.0.2", 5683, 0, 0),
+         ("fe80::1", 5683, 0, 2), ("fe80::1", 61616, 0, 2), ("::1", 5683, 0, 0), ("::1", 40000, 0, 0)]
+ADDR4 = [("10.0.0.1", 5683), ("10.0.0.1", 5684), ("10.0.0.1", 61616), ("10.0.0.2", 5683), ("127.0.0.1", 5683),
+         ("127.0.0.1", 40000)]
+ADDRESS_KINDS = {"udp6": ADDR6, "simplesocketserver": ADDR6 + ADDR4}
+
+
+def address_cases():
+    return [{"level": "address", "kind": kind, "a": list(a), "b": list(b)}
+            for kind, addrs in ADDRESS_KINDS.items() for a in addrs for b in addrs if len(a) == len(b)]
+
+
+class _Anything:
+    pass
+
+
+_SHARED = _Anything()
+
+
+def make_address(kind, sockaddr):
+    sockaddr = tuple(sockaddr)
+    if kind == "udp6":
+        from aiocoap.transports.udp6 import UDP6EndpointAddress
+        return UDP6EndpointAddress(sockaddr, _SHARED)
+    from aiocoap.transports.simplesocketserver import _Address
+    return _Address(_SHARED, sockaddr)
+
+
+def oracle_address(case):
+    A, B = make_address(case["kind"], case["a"]), make_address(case["kind"], case["b"])
+    same = case["a"] == case["b"]
+    try:
+        eq, ne, found = (A == B), (A != B), {A: 1}.get(B) == 1
+        hash_ok = (not same) or hash(A) == hash(B)
+    except Exception as e:
+        return f"comparing the addresses of {case['a']} and {case['b']} ({case['kind']}) raised {type(e).__name__}: {e}"
+    if same and not (eq and not ne and found and hash_ok):
+        return (f"{case['kind']}: two datagrams from {case['a']} are not from the same endpoint "
+                f"(==: {eq}, !=: {ne}, found as dict key: {found}, hashes equal: {hash_ok}): a duplicate would be "
+                f"executed again")
+    if not same and (eq or not ne or found):
+        return (f"{case['kind']}: datagrams from {case['a']} and from {case['b']} count as the same endpoint "
+                f"(==: {eq}, !=: {ne}, found as dict key: {found}): the second endpoint's request with the "
+                f"same message ID is taken for a duplicate, not executed, and answered with the other's response")
+    return ""
+
+
 def run(env, rep):
     env.import_repo()
     P.check_scripts(env, rep, "C04", scripts(env), P.oracle_c04, nontrivial)
+    for case in address_cases():
+        rep.case(case, nontrivial=case["a"] != case["b"])
+        rep.count("address:" + case["kind"])
+        verdict = oracle_address(case)
+        if verdict:
+            rep.oracle_fail(case, verdict, key="address-identity:" + case["kind"])
 
 
 def replay(env, case):
+    if case.get("level") == "address":
+        env.import_repo()
+        return oracle_address(case)
     return replay_with(env, case, P.oracle_c04)
